@@ -38,7 +38,8 @@ func elevFromIndex(i int) elevAlert {
 	return elevAlert{elevStations[i/6], elevSuffix[(i/2)%3], elevIDs[i%2]}
 }
 
-var policies = []nyctalerts.ElevatorAlertsDeduplicationPolicy{nyctalerts.NoDeduplication, nyctalerts.DeduplicateInStation, nyctalerts.DeduplicateInComplex}
+// the zero value ("" - the policy left unset) is documented to mean no deduplication
+var policies = []nyctalerts.ElevatorAlertsDeduplicationPolicy{nyctalerts.NoDeduplication, nyctalerts.DeduplicateInStation, nyctalerts.DeduplicateInComplex, ""}
 
 // priority -> effect, transcribed from the documented mapping
 func refPriorityEffect(p int) (gtfs.AlertEffect, bool) {
@@ -152,6 +153,9 @@ func keysOf(m map[string]*c17Group) []string {
 // entity-selector extension with this sort order (an elevator alert stays an elevator alert)
 var c17ElevatorSortOrder string
 
+// c17AlarmingHeader: the header text of Mercury alerts mentions police / medical / sick / NYPD
+var c17AlarmingHeader int
+
 // c17SelectorKind: what the selectors of Mercury alerts name: 0 a route, 1 a stop, 2 only the agency
 var c17SelectorKind int
 
@@ -177,7 +181,7 @@ func plainAlertEntity(id string) *gtfsrt.FeedEntity {
 
 func c17Elevators(maxLen int) Harness {
 	return func(c *Ctx) {
-		policy := policies[c.Free("policy", 3)]
+		policy := policies[c.Free("policy", len(policies))]
 		useStation := c.Free("inform_using_station_ids", 2) == 1
 		n := c.Free("elevator_alerts", maxLen+1)
 		// station ids that themselves begin with a direction letter and share their digits (real ones:
@@ -315,7 +319,14 @@ func mercurySelector(route string, so int) *gtfsrt.EntitySelector {
 var c17Prefixes = []string{"lmm:planned_work:123", "lmm:alert:456", "other:789"}
 
 func c17MercuryEntity(c *Ctx, s mercurySpec) *gtfsrt.FeedEntity {
-	a := &gtfsrt.Alert{HeaderText: &gtfsrt.TranslatedString{Translation: []*gtfsrt.TranslatedString_Translation{{Text: sp("service change")}}},
+	header := "service change"
+	switch c17AlarmingHeader { // the cause comes from the id prefix, not from the wording
+	case 1:
+		header = "Delays while the NYPD conducts an investigation; POLICE on the scene"
+	case 2:
+		header = "Delays after we helped a sick passenger who needed Medical help"
+	}
+	a := &gtfsrt.Alert{HeaderText: &gtfsrt.TranslatedString{Translation: []*gtfsrt.TranslatedString_Translation{{Text: sp(header)}}},
 		// a description whose first translation has no language (the field is optional) next to one that has
 		DescriptionText: &gtfsrt.TranslatedString{Translation: []*gtfsrt.TranslatedString_Translation{{Text: sp("details")}, {Text: sp("details (html)"), Language: sp("en-html")}}}}
 	a.InformedEntity = append(a.InformedEntity, mercurySelector("A", s.prio1))
@@ -464,6 +475,11 @@ func c17Mercury(c *Ctx) {
 	case 3:
 		s.prio2 = 2 // NO_OVERNIGHT_SERVICE
 	}
+	c17AlarmingHeader = 0
+	if s.prio2 == -2 {
+		c17AlarmingHeader = c.Free("header_wording", 3) // neutral, police, medical
+	}
+	defer func() { c17AlarmingHeader = 0 }()
 	c17SelectorKind = 0
 	if s.prio2 == -2 {
 		c17SelectorKind = c.Free("selector_names", 3) // a route, a stop, only the agency
@@ -521,7 +537,7 @@ func soName(i int) string {
 }
 
 func c17Mixed(c *Ctx) {
-	policy := policies[c.Free("policy", 3)]
+	policy := policies[c.Free("policy", len(policies))]
 	useStation := c.Free("inform_using_station_ids", 2) == 1
 	skip := c.Free("skip_timetabled_no_service", 2) == 1
 	meta := c.Free("add_metadata", 2) == 1
@@ -576,7 +592,7 @@ func init() {
 	register(&Check{
 		ID:    "C17",
 		Level: "model_checking",
-		Rule: "(1) all sequences with repetition of <= 3 (thorough <= 5) elevator alerts over 12 ids (stations A27 / E01, or N04 / S04 whose ids begin with a direction letter) x position of an optional plain alert x 3 policies x station-id flag x {first parse, second parse with the same extension value}; (2) every Mercury priority 1..40 (route-level sort orders; on a route, a stop or an agency-only selector) + agency-level and stop-level sort orders (one and three id segments) + 6 unknown/malformed/absent sort orders x second selector {none, same, DELAYS, NO_OVERNIGHT} x 3 id prefixes x Mercury alert extension x own cause/effect x skip x metadata; (3) mixed feeds (2 elevator alerts, Mercury alert, plain alert, trip update) x 3 orders x all 24 option combinations; fresh extension per parse; " +
+		Rule: "(1) all sequences with repetition of <= 3 (thorough <= 5) elevator alerts over 12 ids (stations A27 / E01, or N04 / S04 whose ids begin with a direction letter) x position of an optional plain alert x 4 policies (incl. the zero value) x station-id flag x {first parse, second parse with the same extension value}; (2) every Mercury priority 1..40 (route-level sort orders; on a route, a stop or an agency-only selector) + agency-level and stop-level sort orders (one and three id segments) + 6 unknown/malformed/absent sort orders x second selector {none, same, DELAYS, NO_OVERNIGHT} x 3 id prefixes x Mercury alert extension x own cause/effect x skip x metadata; (3) mixed feeds (2 elevator alerts, Mercury alert, plain alert, trip update) x 3 orders x all 24 option combinations; fresh extension per parse; " +
 			"non-trivial = distinct (message, options); oracle = reference grouping / tables + differential against the extension-free parse",
 		Assumptions: []string{"metadata is expected iff requested and the alert carries the Mercury alert extension", "with several different priorities in one alert the effect must be that of one of them (which one is unspecified); such an alert may be dropped when any of them is a timetabled no-service priority", "TZ=UTC so that the metadata JSON is reproducible"},
 		Scenarios: func(tier string) []*Scenario {
